@@ -252,3 +252,200 @@ def d1p_correspondence(chk, tag, mix, ncases, maxlen):
                   dict(metas[c], ops=metas[c]["ops"][:s + 1]))
     tot.update({"cases": len(cases), "mismatches": len(mism), "legal_and_polite_per_coq": legal})
     return tot
+
+
+# ---------------------------------------------------------------- IntegratorLearner with non-committing asks
+def _int_modules():
+    from . import impl_integrator as I
+    from .props import c07
+    return I, c07
+
+
+class NCRecorder:
+    """impl_integrator.Recorder plus ask(n, tell_pending=False).  utils.restore replaces the learner's __dict__ by a deep
+    copy: every _Interval is a NEW object afterwards, so the recorder's interval ids are re-attached by walking the old and
+    the restored tree in parallel (children are created once, in a fixed order)."""
+
+    def __init__(self, cfg):
+        I, _ = _int_modules()
+        self.I = I
+        self.rec = I.Recorder(cfg)
+
+    def ask_nc(self, n):
+        rec, I = self.rec, self.I
+        l = rec.l
+        ids_before, old_first = dict(rec.ids), l.first_ival
+        out, err, site = rec._run(lambda: l.ask(n, tell_pending=False))
+        choices = rec.choices
+        new_ids, order = {}, []
+
+        def walk(old, new):
+            if old not in ids_before:
+                raise I.InstrumentationError("after ask(n, tell_pending=False) the interval tree holds intervals created inside "
+                                             "the call (not rolled back)")
+            new_ids[new] = ids_before[old]
+            for oc, nc in zip(old.children, new.children):
+                walk(oc, nc)
+        walk(old_first, l.first_ival)
+        if len(new_ids) != len(ids_before):
+            raise I.InstrumentationError("interval tree after restore does not match the tree before the non-committing ask")
+        rec.ids = new_ids
+        rec.order = sorted(new_ids, key=new_ids.get)
+        pts = [float(x) for x in out[0]] if out is not None else []
+        st = {"op": ("ask_nc", int(n)), "out": pts, "err": err, "site": site, "choices": choices,
+              "nret": None if out is None else len(out[0])}
+        # the call was rolled back: the learner is alive whatever happened inside
+        st["obs"] = None if rec.dead else rec.observe()
+        rec.steps.append(st)
+        return st
+
+
+def int_step_term(st, full):
+    _, c07 = _int_modules()
+    if st["op"][0] == "ask_nc":
+        op = C.app("IAskNC", C.nat(st["op"][1]), C.lst(c07.choice_term(c) for c in st["choices"]))
+    elif st["op"][0] == "ask":
+        op = C.app("IOp", C.app("Ask", C.nat(st["op"][1]), C.lst(c07.choice_term(c) for c in st["choices"])))
+    else:
+        op = C.app("IOp", C.app("Tell", C.flt(st["op"][1]), C.lst(c07.verdict_term(v) for v in st["verdicts"])))
+    out = C.pair(C.lst(C.flt(x) for x in st["out"]), C.nat(st["err"]))
+    return C.tup(op, out, C.opt(st["obs"], lambda o: c07.obs_term(o, full)))
+
+
+def int_case_term(cfg, steps):
+    lo, hi = cfg["bounds"]
+    n = len(steps)
+    return C.tup(C.flt(lo), C.flt(hi), C.nat(cfg["max_ivals"]),
+                 C.lst((int_step_term(s, k % 4 == 0 or k == n - 1 or s["op"][0] == "ask_nc") for k, s in enumerate(steps)),
+                       sep=";\n  "))
+
+
+def int_drive(cfg, rng, max_ops, p_nc):
+    """Parallel-runner-like schedule with non-committing asks (before and after committing ones, with points in flight,
+    with requests larger than the stack so that intervals are refined / split inside the rolled-back call)."""
+    nc = NCRecorder(cfg)
+    rec, I = nc.rec, nc.I
+    l = rec.l
+    inflight = []
+    info = {"nc_asks": 0, "nc_asks_with_inflight": 0, "nc_asks_beyond_stack": 0, "nc_asks_raising": 0}
+    with warnings.catch_warnings():
+        warnings.simplefilter("ignore")
+        while len(rec.steps) < max_ops and not rec.dead:
+            r = rng.random()
+            if r < p_nc:
+                n = rng.choice([1, 2, 5, 17, 34, 50])
+                info["nc_asks"] += 1
+                info["nc_asks_with_inflight"] += bool(inflight)
+                info["nc_asks_beyond_stack"] += n > len(l._stack)
+                st = nc.ask_nc(n)
+                info["nc_asks_raising"] += st["err"] != I.E_NONE
+            elif r < p_nc + 0.25 or not inflight:
+                st = rec.ask(rng.choice([1, 3, 8, 17, 33]))
+                if st["err"] != I.E_NONE:
+                    break
+                inflight += st["out"]
+            else:
+                rng.shuffle(inflight)
+                for x in inflight[:rng.randint(1, max(1, len(inflight) // 2))]:
+                    if rec.dead:
+                        break
+                    rec.tell(x)
+                    inflight.remove(x)
+            if not rec.dead and l.done() and rng.random() < 0.3:
+                break
+    return rec, info
+
+
+def probe_integrator_repaired():
+    """Which variant of Model/Integrator.v the tree corresponds to: do the F1 witness histories of corpus/C07 still
+    end in an internal error?"""
+    import json
+    from .core import VERIF
+    _, c07 = _int_modules()
+    for f in sorted((VERIF / "corpus" / "C07").glob("f1*.json")):
+        d = json.loads(f.read_text())
+        rec, orc = c07.drive(d["cfg"], ops=d["ops"])
+        if any(s.startswith("C07:F1") for s, _ in orc.errors):
+            return False
+    return True
+
+
+def int_correspondence(chk, tag, ncases, max_ops, p_nc):
+    I, c07 = _int_modules()
+    repaired = probe_integrator_repaired()
+    pre = c07.preamble() + "From AV Require Import Run.BookkeepingRun.\n"
+    cases, metas, tot, broken = [], [], {}, []
+    for k in range(ncases):
+        rng = chk.rng(tag, k)
+        cfg = I.draw_config(rng)
+        try:
+            rec, info = int_drive(cfg, rng, max_ops, p_nc)
+        except I.InstrumentationError as e:
+            broken.append((k, str(e)))
+            continue
+        for kk, v in info.items():
+            tot[kk] = tot.get(kk, 0) + v
+        cases.append(int_case_term(cfg, rec.steps))
+        metas.append({"kind": "integrator+nc", "cfg": cfg,
+                      "ops": [[s["op"][0], s["op"][1] if s["op"][0] != "tell" else float(s["op"][1]).hex()] for s in rec.steps]})
+    if broken:
+        chk.broke("correspondence", f"instrumentation of IntegratorLearner around non-committing asks no longer fits ({len(broken)} cases)",
+                  broken[:3])
+    rep = "true" if repaired else "false"
+    mism, ncs, errors = chk.coq_cases(tag, pre, "icase", cases, f"(icheck xi {rep})", "(fun c => Nat.ltb 0 (inc_asks c))",
+                                      shard=max(4, min(20, ncases // 8)))
+    for e in errors:
+        chk.broke("correspondence", "Model/Integrator.v + ask_nc cases could not be evaluated", e[-600:])
+    for c, s in mism[:3]:
+        chk.broke("correspondence", f"Model/Integrator.v (+ask_nc) vs IntegratorLearner: case {c} step {s}",
+                  dict(metas[c], ops=metas[c]["ops"][:s + 1]))
+    tot.update({"cases": len(cases), "mismatches": len(mism), "cases_with_nc_ask": ncs, "model_variant_repaired": repaired})
+    return tot
+
+
+# ---------------------------------------------------------------- LearnerND with re-tells
+def lnd_retell_correspondence(chk, tag, ncases, maxlen):
+    """Model/LND.v vs the real LearnerND (drivers, recorders and printers of the C04 check) on histories into which
+    re-tells of already known points are inserted (C04's own histories have none)."""
+    from . import impl_lnd as LN
+    from .props import c04
+    unfixed5, unfixed12 = c04.probe_f5(), c04.probe_f12()
+    cases, metas = [], []
+    tot = {"cases": 0, "ops": 0, "re_tells": 0, "re_tells_with_pending_points": 0, "discards": 0, "tell_pending": 0}
+    for k in range(ncases):
+        rng = chk.rng(tag, k)
+        cfg = LN.gen_config(rng)
+        h = LN.gen_history(rng, maxlen, cfg["dim"])
+        ops = LN.drive(cfg, hist=h)["ops"]
+        ops2, known, npend = [], [], 0
+        for op in ops:
+            ops2.append(op)
+            if op[0] == "tell":
+                known.append(op[1])
+                npend = max(0, npend - 1)
+            elif op[0] == "ask":
+                npend += op[1]
+            elif op[0] == "remove_unfinished":
+                npend = 0
+                tot["discards"] += 1
+            elif op[0] == "tell_pending":
+                tot["tell_pending"] += 1
+            if known and rng.random() < 0.3:
+                ops2.append(["tell", rng.choice(known)])
+                tot["re_tells"] += 1
+                tot["re_tells_with_pending_points"] += npend > 0
+        r, hooks, term = c04.run_case(cfg, concrete=ops2, unfixed5=unfixed5, unfixed12=unfixed12)
+        if len(r["ops"]) < len(ops2) and not r["oracle"].errors:
+            continue
+        cases.append(term)
+        metas.append({"kind": "lnd+retells", "cfg": cfg, "ops": r["ops"]})
+        tot["ops"] += len(r["ops"])
+    tot["cases"] = len(cases)
+    mism, legal, errors = chk.coq_cases(tag, c04.PREAMBLE, "case", cases, "check", "is_legal", shard=10)
+    for e in errors:
+        chk.broke("correspondence", "Model/LND.v cases (with re-tells) could not be evaluated", e[-600:])
+    for c, s in mism[:3]:
+        chk.broke("correspondence", f"Model/LND.v vs LearnerND with re-tells: case {c} step {s} (each operation is followed by a Touch step)",
+                  dict(metas[c], ops=metas[c]["ops"][:s // 2 + 1]))
+    tot.update({"mismatches": len(mism), "legal_per_coq": legal})
+    return tot
